@@ -866,7 +866,7 @@ End WithCfg.
 (* ---------- the theorems, for any shape the translator may produce that equals the proven one ---------- *)
 Lemma shape_eqb_eq a : shape_eqb a std_shape = true -> a = std_shape.
 Proof.
-  destruct a as [v k ss sn nl od lk im nc an es go ap lh op1]. unfold shape_eqb. cbn. intros H.
+  destruct a as [v k ss sn nl od lk im nc an es go ap lh op1 da]. unfold shape_eqb. cbn. intros H.
   repeat (let X := fresh "X" in apply andb_prop in H as [H X]).
   destruct v; [|discriminate].
   repeat match goal with
